@@ -252,12 +252,30 @@ func nativeSelect(hasDefault bool, cases []Case) (int, reflect.Value, bool) {
 // if none is ready does the task block natively, followed by a mandatory yield.
 // The result index is the clause index, or -1 for default.
 func Select(site int, hasDefault bool, cases ...Case) (int, reflect.Value, bool) {
+	return selectImpl(site, hasDefault, false, cases)
+}
+
+// SelectLib is Select for a statement with a channel that goroutines of an
+// un-instrumented library feed (go-stomp's Subscription.C): whether such a
+// channel is ready when probed must not depend on how far those goroutines
+// happen to have got while this task was running, so the task first parks
+// unconditionally - the scheduler releases it only at quiescence, when every
+// library goroutine has done all it can.
+func SelectLib(site int, hasDefault bool, cases ...Case) (int, reflect.Value, bool) {
+	return selectImpl(site, hasDefault, true, cases)
+}
+
+func selectImpl(site int, hasDefault, quiesce bool, cases []Case) (int, reflect.Value, bool) {
 	s := cur()
 	if s == nil {
 		return nativeSelect(hasDefault, cases)
 	}
 	t := s.me(site)
-	s.pre(t, site)
+	if quiesce && t.goid != s.rootG {
+		s.park(t, site)
+	} else {
+		s.pre(t, site)
+	}
 	n := len(cases)
 	var order []int
 	if n >= 2 {
